@@ -625,4 +625,28 @@ V2("c18-shared-default-recipient-header", "C18", "break", "R18.5", "add_recipien
      "    def add_recipient(self, header: Header = {}, key: Key | None = None) -> None:\n        recipient = Recipient(self, header, key)")])
 V("c18-benign-recipient-header-copy", "C18", "benign", "", "Recipient copies the caller's header dict",
   "rfc7516/models.py", "        self.header = header\n        self.recipient_key = recipient_key", "        self.header = dict(header) if header else None\n        self.recipient_key = recipient_key")
+V("c10-aud-any-sequence", "C10", "break", "R10.6", "a str aud is no longer wrapped (Sequence test): substring match",
+  "rfc7519/registry.py", "        if isinstance(value, list):\n            aud_list = value", "        if isinstance(value, (list, str)):\n            aud_list = value")
+V("c10-benign-aud-list-or-tuple", "C10", "benign", "", "aud given as list or tuple is used as is",
+  "rfc7519/registry.py", "        if isinstance(value, list):\n            aud_list = value", "        if isinstance(value, (list, tuple)):\n            aud_list = value")
+V("c11-keyops-overlap-only", "C11", "break", "R11.9", "use/key_ops consistency weakened from subset to overlap",
+  "rfc7517/models.py", "            for op in dict_key[\"key_ops\"]:\n                if op not in operations:\n                    raise ValueError('\"use\" and \"key_ops\" does not match')",
+  "            if set(operations).isdisjoint(dict_key[\"key_ops\"]):\n                raise ValueError('\"use\" and \"key_ops\" does not match')")
+V("c11-benign-keyops-subset-set", "C11", "benign", "", "use/key_ops consistency as a set difference",
+  "rfc7517/models.py", "            for op in dict_key[\"key_ops\"]:\n                if op not in operations:\n                    raise ValueError('\"use\" and \"key_ops\" does not match')",
+  "            if set(dict_key[\"key_ops\"]) - set(operations):\n                raise ValueError('\"use\" and \"key_ops\" does not match')")
+V("c04-aad-predicate-asymmetric", "C04", "break", "R04.5", "encrypt appends the AAD when it is not None, decrypt when it is truthy",
+  "rfc7516/message.py", "    if isinstance(obj, BaseJSONEncryption) and obj.aad:\n        aad = aad + b\".\" + urlsafe_b64encode(obj.aad)\n    obj.base64_segments[\"aad\"] = aad",
+  "    if isinstance(obj, BaseJSONEncryption) and obj.aad is not None:\n        aad = aad + b\".\" + urlsafe_b64encode(obj.aad)\n    obj.base64_segments[\"aad\"] = aad")
+V2("c04-benign-aad-predicate-all-not-none", "C04", "benign", "", "all three sites test `obj.aad is not None`",
+   [("rfc7516/message.py", "    if isinstance(obj, BaseJSONEncryption) and obj.aad:\n        aad = aad + b\".\" + urlsafe_b64encode(obj.aad)\n    obj.base64_segments[\"aad\"] = aad",
+     "    if isinstance(obj, BaseJSONEncryption) and obj.aad is not None:\n        aad = aad + b\".\" + urlsafe_b64encode(obj.aad)\n    obj.base64_segments[\"aad\"] = aad"),
+    ("rfc7516/message.py", "    if isinstance(obj, BaseJSONEncryption) and obj.aad:\n        aad = aad + b\".\" + urlsafe_b64encode(obj.aad)\n\n    msg = enc.decrypt",
+     "    if isinstance(obj, BaseJSONEncryption) and obj.aad is not None:\n        aad = aad + b\".\" + urlsafe_b64encode(obj.aad)\n\n    msg = enc.decrypt"),
+    ("rfc7516/json.py", "    if obj.aad:\n        data[\"aad\"]", "    if obj.aad is not None:\n        data[\"aad\"]")])
+V("c03-message-copies-header", "C03", "break", "R03.2", "CompactSignature keeps a copy of the header: the kid set by key selection is not in the dict rfc7797 encodes",
+  "rfc7515/model.py", "    def __init__(self, protected: Header, payload: bytes):\n        self.protected = protected", "    def __init__(self, protected: Header, payload: bytes):\n        self.protected = dict(protected)")
+V("c14-7797-header-encoded-before-key", "C14", "break", "R14.8", "rfc7797 serialize_compact encodes the header before guess_key records the kid",
+  "rfc7797/compact.py", "    obj = CompactSignature(protected, to_bytes(payload))\n    alg = registry.get_alg(protected[\"alg\"])\n    key = guess_key(private_key, obj, True)\n    key.check_use(\"sig\")\n\n    header_segment = json_b64encode(protected)",
+  "    header_segment = json_b64encode(protected)\n    obj = CompactSignature(protected, to_bytes(payload))\n    alg = registry.get_alg(protected[\"alg\"])\n    key = guess_key(private_key, obj, True)\n    key.check_use(\"sig\")\n")
 
